@@ -173,11 +173,14 @@ func BuildResp(rng *rand.Rand, choice map[string]string, in ReqInfo) *Resp {
 		add("Sec-WebSocket-Accept", " "+acc[:k]+string(ch)+acc[k+1:])
 		v.Reject("accept differing in one character")
 	case "urlsafe-alphabet":
+		// (the verdict must not depend on the random key: when the right value happens to contain neither
+		// '+' nor '/', its first character is replaced by '-', which only the URL-safe alphabet has)
 		u := strings.NewReplacer("+", "-", "/", "_").Replace(acc)
-		add("Sec-WebSocket-Accept", " "+u)
-		if u != acc {
-			v.Reject("accept in the URL-safe base64 alphabet")
+		if u == acc {
+			u = "-" + acc[1:]
 		}
+		add("Sec-WebSocket-Accept", " "+u)
+		v.Reject("accept in the URL-safe base64 alphabet")
 	case "sha1-of-key-only":
 		sum := sha1.Sum([]byte(in.Key))
 		add("Sec-WebSocket-Accept", " "+base64.StdEncoding.EncodeToString(sum[:]))
